@@ -241,6 +241,39 @@ def run(repo, chk):
             halts = [e for e in em if e.ctor == 'asm.Halt']
             chk.expect(bool(halts) == bool(conds.get('expr.data')), 'C09.M2', f'truth_is_defeat[literal {conds.get("expr.data")}]',
                        'literal true is defeat, literal false is nothing', GEN)
+    # the only wrappers the boolean lowerings may look through: `not` (swaps polarity) and one int->bool cast
+    for fname in ('truth_is_defeat', 'bool_expr_branch'):
+        bad = None
+        n = 0
+        for p, ev in gf.inlined(fname):
+            if p.outcome == 'raise':
+                continue
+            conds = {}
+            for e in ev:
+                if e.kind == 'cond':
+                    conds[e.text] = e.truth
+                elif e.kind == 'assign' and e.target == 'expr' and e.text not in ('for-target', 'match-bind'):
+                    n += 1
+                    v = src(e.value)
+                    if v == 'expr.expr' and conds.get('type(expr) is ast.IntToBool') is True:
+                        conds.pop('type(expr) is ast.IntToBool', None)
+                    elif v == 'expr.arg' and conds.get('type(expr) is ast.Not') is True:
+                        pass
+                    else:
+                        bad = f'`expr = {v}` (not guarded by an exact IntToBool / Not test)'
+                elif e.kind == 'iter' and 'expr' in e.text:
+                    bad = f'loop over wrappers: {e.text}'
+        chk.expect(bad is None, 'C09.M2', f'{fname}::cast unwrapping',
+                   f'{bad}: only one int->bool cast (truthiness of the same value) may be skipped; skipping a narrowing cast '
+                   'such as `is byte` makes this position test the whole word while the value position tests the low byte', GEN)
+    # out-of-range constants are reduced modulo 2^(8w), nothing else
+    ee = gf.methods['eval_expr']
+    red = [n for n in ast.walk(ee) if isinstance(n, ast.AugAssign) and src(n.target) == 'data']
+    if red:
+        ok = all(isinstance(n.op, ast.BitAnd) and src(n.value) == 'self.max_unsigned' for n in red)
+        chk.expect(ok, 'C09.M1', 'eval_expr[IntValue]::constant reduction',
+                   f'{[src(n) for n in red]}: an out-of-range constant must be reduced with `& max_unsigned` (modulo 2^(8w)), '
+                   'the value the assembler would wrap it to', GEN)
     # arithmetic arm operand protocol
     for p, ev in gf.inlined('eval_expr'):
         arm = F.arm_of(ev, len(ev) - 1)
